@@ -371,7 +371,7 @@ func init() {
 					before[b.Name] = len(b.Arrivals())
 				}
 				pres := vh.Do(sys.Addr, rq)
-				if rq.Instant && vh.IsSim && (pres.DurNS != 0 || dres.DurNS != 0) {
+				if rq.Instant && vh.IsSim && (vh.Took(time.Duration(pres.DurNS)) || vh.Took(time.Duration(dres.DurNS))) {
 					vh.FlagAnomaly(fmt.Sprintf("%q direct=%v proxied=%v", x.Label, time.Duration(dres.DurNS), time.Duration(pres.DurNS)))
 				}
 				var pa *vh.Arrival
